@@ -475,6 +475,45 @@ def potentialKinds (locals : List (Name × Rule)) (globals : List (Name × RuleC
         | none => none
 end
 
+mutual
+/-- `Rule::potential_kinds()` as asked at CONSTRUCTION time since FIX (418aa84, "a local utility
+rule shadows a global one of the same name from the start"): `declared` = the ids announced by
+`RuleRegistration::declare_local` (`DeserializeEnv::with_utils` announces every local id before it
+deserializes any of them); `ReferentRule::eval_global` answers `None` for an announced id, so a
+local rule that is declared but not inserted yet has no potential kinds (= any kind) instead of
+those of the global rule it shadows.  `potentialKindsD [] = potentialKinds`
+(`Lemmas/KindsDeclared.lean`). -/
+def potentialKindsD (declared : List Name) (locals : List (Name × Rule))
+    (globals : List (Name × RuleCore)) : (fuel : Nat) → Rule → Option (List Nat)
+  | 0, _ => none
+  | fuel + 1, r =>
+    match r with
+    | .pattern p rootKind _ => patternPotentialKinds p rootKind
+    | .kind k => some [k]
+    | .regex _ => none
+    | .range _ _ _ _ => none
+    | .nthChild _ _ ofRule _ =>
+      match ofRule with
+      | some rule => potentialKindsD declared locals globals fuel rule
+      | none => none
+    | .inside _ _ _ => none
+    | .has _ _ _ => none
+    | .precedes _ _ => none
+    | .follows _ _ => none
+    | .all _ kinds => kinds
+    | .any _ kinds => kinds
+    | .not _ => none
+    | .matches id =>
+      match alookup id locals with
+      | some rule => potentialKindsD declared locals globals fuel rule
+      | none =>
+        if declared.contains id then none
+        else
+          match alookup id globals with
+          | some core => potentialKindsD declared locals globals fuel core.rule
+          | none => none
+end
+
 /-- `All::compute_kinds`: intersection of the `Some`s, `None` when every part is `None` -/
 def allComputeKinds (parts : List (Option (List Nat))) : Option (List Nat) :=
   parts.foldl (fun acc p =>
